@@ -27,6 +27,7 @@ type LoopSpec struct {
 	Invariants []*Clause
 	Decreases  *Clause
 	Unroll     int
+	Peel       int // execute the first Peel iterations explicitly, then cut at the invariant
 }
 
 type SiteSpec struct {
@@ -109,7 +110,7 @@ type SpecDB struct {
 	Errors      []string
 }
 
-var clauseKW = map[string]bool{"func": true, "requires": true, "ensures": true, "modifies": true, "loop": true, "at": true,
+var clauseKW = map[string]bool{"functype": true, "func": true, "requires": true, "ensures": true, "modifies": true, "loop": true, "at": true,
 	"pure": true, "trusted": true, "inline": true, "may-panic": true, "replay:": true, "spec": true, "ghost": true, "field": true,
 	"axiom": true, "lemma": true, "bytes:": true, "safety": true, "noverify": true, "inline-callee": true, "opaque-callee": true, "end": true, "prop": true, "package": true}
 
@@ -191,6 +192,12 @@ func (db *SpecDB) LoadFile(path, pkgPath string) error {
 				db.errf(path, rc.line, "duplicate contract for %s", name)
 			}
 			db.Funcs[name] = cur
+		case "functype":
+			// contract of every value of a named function type (applied at dynamic calls through that type)
+			name := "functype " + pkgPath + "." + rest
+			cur = &FuncSpec{Name: name, Pkg: pkgPath, Loops: map[int]*LoopSpec{}, File: path, Line: rc.line, InlineSet: map[string]bool{}, Opaque: map[string]bool{}, Props: map[string]bool{}, Trusted: true}
+			curLemma = nil
+			db.Funcs[name] = cur
 		case "end":
 			cur, curLemma = nil, nil
 		case "package":
@@ -268,6 +275,12 @@ func (db *SpecDB) LoadFile(path, pkgPath string) error {
 					db.errf(path, rc.line, "bad unroll count")
 				}
 				ls.Unroll = k
+			case "peel":
+				k, err := strconv.Atoi(subRest)
+				if err != nil {
+					db.errf(path, rc.line, "bad peel count")
+				}
+				ls.Peel = k
 			default:
 				db.errf(path, rc.line, "unknown loop clause %s", sub)
 			}
